@@ -99,11 +99,15 @@ func (k Keeper) CalculateBatchAllocation(ctx context.Context, auction types.Auct
 		// Note that our goal is to find the first true(matched) condition, starting
 		// from the lowest price.
 		i = (len(prices) - 1) - i
-		res, matched := types.Match(prices[i], prices, bidsByPrice, sellingAmt, allowedBidders)
-		if matched { // If we found a valid matching price, store the result
+		// The searched predicate must be monotone in the price: "the capped demand at
+		// this price fits the selling amount" (res != nil). Whether anything was matched
+		// is not monotone (a dust bid on top of the book converts to zero coins), so it
+		// must not be used to steer the search.
+		res, _ := types.Match(prices[i], prices, bidsByPrice, sellingAmt, allowedBidders)
+		if res != nil { // If we found a valid matching price, store the result
 			matchRes = res
 		}
-		return matched
+		return res != nil
 	})
 
 	mInfo.MatchedLen = int64(len(matchRes.MatchedBids))
